@@ -9,6 +9,7 @@ nothing in /repo is touched.
 * geometry   - tqdm asks the real terminal behind fd 2 for its size; pinned to 80x24.
 * tqdm's monitor thread (the only thread in a graphtage process) is disabled, not simulated.
 """
+import io
 import sys
 
 import tqdm as _tqdm_pkg
@@ -108,13 +109,25 @@ class SimClock:
         return self.now
 
 
-class SimStream:
-    encoding = "utf-8"
-    errors = "strict"
-    closed = False
+class SimStream(io.TextIOBase):
+    """A text stream with the full TextIO surface (writelines, context manager, iteration ... come from
+    io.TextIOBase, so that code which writes the same bytes through a different method still works)."""
     mode = "w"
 
+    @property
+    def encoding(self):
+        return "utf-8"
+
+    @property
+    def errors(self):
+        return "strict"
+
+    @property
+    def closed(self):
+        return False
+
     def __init__(self, fd, name):
+        super().__init__()
         self.fd = fd
         self.name = name
         self.tty = False
@@ -150,7 +163,10 @@ class SimStream:
         return self.fd
 
     def close(self):
-        self.close_calls += 1
+        self.close_calls += 1     # main() closes its stdout; a second call in the same process must still work
+
+    def __del__(self):
+        pass
 
     def writable(self):
         return True
